@@ -17,6 +17,7 @@ TInit == /\ t \in 1 .. NT /\ l = 2 /\ devs = {}
          /\ wrong = {<<C.wrong[n][1], C.wrong[n][2]>> : n \in 1 .. Len(C.wrong)}
          /\ fail = [m \in ToSet(C.order) |-> C.fail[m]]
          /\ polls = ToSet(C.polls) /\ writes = ToSet(C.writes)
+         /\ host = [m \in ToSet(C.order) |-> C.host[m]]
          /\ phase = [m \in ToSet(C.order) |-> "absent"]
          /\ written = {} /\ polled = {} /\ cbdone = {} /\ state = "starting"
          /\ stopped = {} /\ joined = {} /\ shut = {}
